@@ -485,6 +485,71 @@ fn regalloc_sites(r: &mut Rep) {
     }
 }
 
+// ---------------------------------------------------------------------------------------------- instruction audit (step mode)
+#[inline(never)]
+fn audit_r8(p: u16) -> u8 { unsafe { Port::<u8>::new(p).read() } }
+#[inline(never)]
+fn audit_r16(p: u16) -> u16 { unsafe { Port::<u16>::new(p).read() } }
+#[inline(never)]
+fn audit_r32(p: u16) -> u32 { unsafe { Port::<u32>::new(p).read() } }
+#[inline(never)]
+fn audit_w8(p: u16, v: u8) { unsafe { Port::<u8>::new(p).write(v) } }
+#[inline(never)]
+fn audit_w16(p: u16, v: u16) { unsafe { Port::<u16>::new(p).write(v) } }
+#[inline(never)]
+fn audit_w32(p: u16, v: u32) { unsafe { Port::<u32>::new(p).write(v) } }
+
+/// a function that consists of one port access only is single-stepped and every instruction it executes is classified: apart
+/// from the port instruction itself only register-to-register moves, stack-frame bookkeeping and the return may appear —
+/// nothing that writes flags, memory or another register behind the compiler's back ("exactly one port instruction ...
+/// without touching memory")
+fn instruction_audit(r: &mut Rep) {
+    fn classify(b: &[u8; 4]) -> &'static str {
+        let mut i = 0;
+        while i < 3 && (b[i] == 0x66 || (0x40..=0x4f).contains(&b[i])) {
+            i += 1;
+        }
+        match b[i] {
+            0xec..=0xef | 0xe4..=0xe7 => "port",
+            0x89 | 0x8b | 0x88 | 0x8a if i + 1 < 4 && b[i + 1] >= 0xc0 => "mov-reg-reg",
+            0x0f if i + 2 < 4 && (b[i + 1] == 0xb6 || b[i + 1] == 0xb7) && b[i + 2] >= 0xc0 => "movzx-reg-reg",
+            0x0f if b[i + 1] == 0x1f => "nop",
+            0xc3 => "ret",
+            0x55 | 0x5d | 0x90 => "frame/nop",
+            0xf3 if b[1] == 0x0f && b[2] == 0x1e => "endbr",
+            _ => "other",
+        }
+    }
+    let sites: [(&str, u64, Box<dyn Fn()>); 6] = [
+        ("Port<u8>::read", audit_r8 as usize as u64, Box::new(|| { std::hint::black_box(audit_r8(std::hint::black_box(0x3f8))); })),
+        ("Port<u16>::read", audit_r16 as usize as u64, Box::new(|| { std::hint::black_box(audit_r16(std::hint::black_box(0x3f8))); })),
+        ("Port<u32>::read", audit_r32 as usize as u64, Box::new(|| { std::hint::black_box(audit_r32(std::hint::black_box(0x3f8))); })),
+        ("Port<u8>::write", audit_w8 as usize as u64, Box::new(|| audit_w8(std::hint::black_box(0x3f8), std::hint::black_box(0x5a)))),
+        ("Port<u16>::write", audit_w16 as usize as u64, Box::new(|| audit_w16(std::hint::black_box(0x3f8), std::hint::black_box(0x5aa5)))),
+        ("Port<u32>::write", audit_w32 as usize as u64, Box::new(|| audit_w32(std::hint::black_box(0x3f8), std::hint::black_box(0x5aa5_1234)))),
+    ];
+    for (name, addr, f) in sites.iter() {
+        let c = cpu();
+        c.trace_lo = *addr;
+        c.trace_hi = *addr + 64;
+        c.nitrace = 0;
+        c.clear_events();
+        let _ = run_stepped(|| f());
+        fault_mode_on();
+        c.trace_lo = 0;
+        c.trace_hi = 0;
+        r.ev(true);
+        let tr: Vec<(u64, [u8; 4])> = c.itrace[..c.nitrace].to_vec();
+        // the function body ends at its first ret
+        let body: Vec<&(u64, [u8; 4])> = tr.iter().take_while(|(_, b)| classify(b) != "ret").collect();
+        let ports = body.iter().filter(|(_, b)| classify(b) == "port").count();
+        let other: Vec<String> = body.iter().filter(|(_, b)| classify(b) == "other").map(|(a, b)| format!("{:#x}: {:02x?}", a, b)).collect();
+        if tr.is_empty() || ports != 1 || !other.is_empty() {
+            r.viol(&format!("C18|{}|wrapper-executes-other-instructions-than-one-port-access-and-register-moves", name), &format!("portaudit {}", name), &format!("{} port instructions; other: {:?}; trace {:02x?}", ports, other, tr.iter().map(|(_, b)| b).collect::<Vec<_>>()));
+        }
+    }
+}
+
 /// the same object used 70,000 times: call number k behaves like call number 1 (no counter, cache or warm-up effect)
 fn repetition(r: &mut Rep) {
     macro_rules! rep {
@@ -517,6 +582,8 @@ pub fn run(a: &Args) {
         fault_mode_on();
         if t[0] == "port" {
             port_case(&mut r, t[1].parse().unwrap(), t[4] == "true");
+        } else if t[0] == "portaudit" {
+            instruction_audit(&mut r);
         } else if t[0] == "portrepeat" {
             repetition(&mut r);
         } else if t[0] == "portsite" {
@@ -563,6 +630,9 @@ pub fn run(a: &Args) {
     }
     if a.shard == 1 % a.nshards {
         guarded(&mut r, "C18|Port|unexpected-panic", || "portrepeat".into(), |r| repetition(r));
+    }
+    if a.shard == 2 % a.nshards {
+        guarded(&mut r, "C18|Port|unexpected-panic", || "portaudit".into(), |r| instruction_audit(r));
     }
     r.states = r.evals;
     r.exhaustive = true;
